@@ -324,7 +324,7 @@ func TestVerifC11Trie(t *testing.T) {
 	maxBig := 3000
 	bigEvery := 40
 	if VThorough() {
-		cases = 1100
+		cases = 900
 		maxBig = 60000 // a geosite-scale suffix set is ~50 000 patterns = ~100 000 keys; five such tries
 		bigEvery = 320
 	}
